@@ -2,9 +2,8 @@
    "codegen-rv"  the model of axcut2rv64 against the real crate: instruction list (modulo comments),
                  printed routine text (verbatim, comments included), capacity/print panics;
    "sem-rv"      executable form of C08 on the implementation's output: the emitted code run on
-                 Sem/RVSem against the AxCut linear machine, and against the x86-64 code of the same
-                 program run on Sem/X86Sem (three_backends_agree; AArch64 joins when its ISA model
-                 exists).
+                 Sem/RVSem against the AxCut linear machine, and against the x86-64 and AArch64 code
+                 of the same program run on Sem/X86Sem and Sem/A64Sem (three_backends_agree).
    Both accept the case shape of `harness codegen-rv` (rust output = rv result) and of
    `harness codegen-all` (rust output = (all <rv> <x86> <a64>)). *)
 From Coq Require Import List ZArith NArith String Bool.
